@@ -95,6 +95,85 @@ def intWidth? (s : String) : Option Nat :=
   match s with
   | "1" => some 1 | "2" => some 2 | "4" => some 4 | "8" => some 8 | _ => none
 
+
+/-- lower case = object A, upper case = object B (built with `AES(nullptr)`) -/
+def aesStep? (w : String) : Option (Bool × Aes.Op) :=
+  if w.startsWith "k:" then (block16? (w.drop 2).toString).map (fun x => (false, .setKey x))
+  else if w.startsWith "e:" then (block16? (w.drop 2).toString).map (fun x => (false, .enc x))
+  else if w.startsWith "d:" then (block16? (w.drop 2).toString).map (fun x => (false, .dec x))
+  else if w.startsWith "K:" then (block16? (w.drop 2).toString).map (fun x => (true, .setKey x))
+  else if w.startsWith "E:" then (block16? (w.drop 2).toString).map (fun x => (true, .enc x))
+  else if w.startsWith "D:" then (block16? (w.drop 2).toString).map (fun x => (true, .dec x))
+  else none
+
+/-- reference outputs of an interleaved history: FIPS-197 under the last key installed ON THAT OBJECT; `none` = an object is used
+before it has a key (not driven: the real object would read uninitialised round keys) -/
+def aesTwoRef : Option (List UInt8) → Option (List UInt8) → List (Bool × Aes.Op) → Option (List (List UInt8))
+  | _, _, [] => some []
+  | ka, kb, (w, .setKey k) :: r => if w then aesTwoRef ka (some k) r else aesTwoRef (some k) kb r
+  | ka, kb, (w, .enc b) :: r => do let k ← (if w then kb else ka); let t ← aesTwoRef ka kb r; pure (Spec.aesCipher k b :: t)
+  | ka, kb, (w, .dec b) :: r => do let k ← (if w then kb else ka); let t ← aesTwoRef ka kb r; pure (Spec.aesInvCipher k b :: t)
+
+/-- how a new key is related to what the object caches (tags for the distribution statistics) -/
+def rekeyTag (o : Aes.Obj) (key : List UInt8) : String :=
+  let cur := o.memCol 0
+  let idx := List.range' 1 10
+  if key = cur then (if key = o.memRow 0 then "aes-rekey-same-symmetric" else "aes-rekey-same")
+  else if key = o.memRow 0 then "aes-rekey-transpose"
+  else if idx.any (fun i => key = o.memRow i) then "aes-rekey-roundkey-mem"
+  else if idx.any (fun i => key = o.memCol i) then "aes-rekey-roundkey-col"
+  else if key = cur.reverse then "aes-rekey-reverse"
+  else if ((List.zipWith (fun a b => if a = b then 0 else 1) key cur).foldl (· + ·) 0) = 1 then "aes-rekey-onebyte"
+  else if ((List.zipWith (fun a b => if a = b then 0 else 1) key (o.memRow 0)).foldl (· + ·) 0) = 1 then "aes-rekey-transpose-onebyte"
+  else "aes-rekey-other"
+
+/-- rekey tags of both objects -/
+def rekeyTags2 (T : Aes.Tables) : Option Aes.Obj → Option Aes.Obj → List (Bool × Aes.Op) → List String
+  | _, _, [] => []
+  | a, b, (w, .setKey k) :: r =>
+    let cur := if w then b else a
+    let t := match cur with | some o => [rekeyTag o k] | none => []
+    let o' := some ((cur.getD ⟨[]⟩).setKey T k)
+    t ++ (if w then rekeyTags2 T a o' r else rekeyTags2 T o' b r)
+  | a, b, _ :: r => rekeyTags2 T a b r
+
+def link? : String → Option Crc.Link
+  | "p" => some .prev | "n" => some .notPrev | "z" => some .zero | "f" => some .ones | _ => none
+
+def linkPairs? : List String → Option (List (Crc.Link × List UInt8))
+  | [] => some []
+  | l :: d :: r => do let l ← link? l; let d ← bytesOfHex d; let t ← linkPairs? r; pure ((l, d) :: t)
+  | _ => none
+
+/-- `d:<v>:<off>` = dump, `p:<off>` = parse -/
+def siStep? (w : String) : Option (Option Nat × Nat) :=
+  match w.splitOn ":" with
+  | ["d", v, off] => do
+      let n ← u64? v; let o ← off.toNat?
+      if toString n = v ∧ toString o = off then some (some n, o) else none
+  | ["p", off] => do let o ← off.toNat?; if toString o = off then some (none, o) else none
+  | _ => none
+
+def siGo (buf : List UInt8) : List (Option Nat × Nat) → String
+  | [] => "\nM si.buf buf=" ++ hexOfBytes buf
+  | (some v, off) :: r => match SInt.dumpAt buf off v with
+      | .ok (n, buf') => s!" d={n}" ++ siGo buf' r
+      | .oob w => s!" OOB {w}"
+      | _ => " ?"
+  | (none, off) :: r => match SInt.parseAt buf off with
+      | .ok (n, some v) => s!" p={n}/{v}" ++ siGo buf r
+      | .ok (n, none) => s!" p={n}/-" ++ siGo buf r
+      | .oob w => s!" OOB {w}"
+      | _ => " ?"
+
+def md5Step2? (w : String) : Option Md5.Step2 :=
+  if w = "fa" then some (false, none) else if w = "fb" then some (true, none)
+  else if w.startsWith "a:" then (bytesOfHex (w.drop 2).toString).map (fun d => (false, some d))
+  else if w.startsWith "b:" then (bytesOfHex (w.drop 2).toString).map (fun d => (true, some d))
+  else none
+
+def unwordsSp (l : List String) : String := " ".intercalate l
+
 def showSer (r : Res (Bool × Ser.S)) : String × Option Ser.S :=
   match r with
   | .ok (b, s) => (s!"P ser ret={if b then 1 else 0} pos={s.pos} mem={hexOfBytes s.mem}", some s)
@@ -157,6 +236,15 @@ def runOp (st : DSt) (ws00 : List String) : Option (DSt × List String) := do
                else if pv = 2 ^ 31 then "port-2^31" else "port-over-int"
       pure (st, [s!"B url-host-{if ok then "ok" else "fail"} url-{t}",
                  s!"P url.host ret={if ok then 1 else 0} user={hexOfBytes r.user} pw={hexOfBytes r.password} host={hexOfBytes r.host} port={r.port} str={hexOfBytes (Url.hostToString r)}"])
+  -- StringToUrlHost(s1, obj) then StringToUrlHost(s2, obj) on the SAME object (lesson g: the state is what the object already holds)
+  | ["url.host2", h1, h2] => do
+      let s1 ← bytesOfHex h1; let s2 ← bytesOfHex h2
+      let (ok1, r1) := Url.parseHost s1
+      let (ok2, r2) := Url.parseHostInto r1 s2
+      let stale := (Url.parseHostIntoOrig r1 s2).2 ≠ r2
+      let show1 (ok : Bool) (r : Url.Host) := s!"ret={if ok then 1 else 0} user={hexOfBytes r.user} pw={hexOfBytes r.password} host={hexOfBytes r.host} port={r.port}"
+      pure (st, [s!"B url-host2-{if ok1 then "ok" else "fail"}-{if ok2 then "ok" else "fail"}{if stale then " url-host2-clears-old-user" else ""}",
+                 s!"P url.host2 {show1 ok1 r1} | {show1 ok2 r2}"])
   | ["url.mkhost", u, pw, h, port] => do
       let u ← bytesOfHex u; let pw ← bytesOfHex pw; let h ← bytesOfHex h; let port ← port.toNat?
       if port ≥ 65536 then none else
@@ -178,6 +266,81 @@ def runOp (st : DSt) (ws00 : List String) : Option (DSt × List String) := do
             | _ => " end=assert"
       let (_, ab) := Md5.runScript Spec.md5Params (Md5.Obj.new Spec.md5Params) steps
       pure (st, [s!"B md5-seq-{if ab then "abort" else "clean"}", "P md5.seq" ++ go (Md5.Obj.new Spec.md5Params) steps])
+  | "aes.hist" :: k0 :: steps => do
+      let k0 ← bytesOfHex k0
+      if ¬ (k0.length = 16 ∨ k0.isEmpty) ∨ steps.isEmpty then none else
+      let ops ← steps.mapM aesStep?
+      let ka : Option (List UInt8) := if k0.isEmpty then none else some k0
+      -- FIPS-197 under the last key of the object addressed (C19_aes_history, C19_aes_two_objects); `none`: used before keyed
+      let expect ← aesTwoRef ka none ops
+      let a0 : Aes.Obj := match ka with | some k => Aes.Obj.new Aes.gen k | none => ⟨[]⟩
+      let m := (Aes.runTwo Aes.gen a0 ⟨[]⟩ ops).map (·.2)
+      let tags := (rekeyTags2 Aes.gen (ka.map (Aes.Obj.new Aes.gen)) none ops).eraseDups
+      let two := ops.any (·.1)
+      pure (st, [s!"B aes-hist-{if k0.isEmpty then "nullctor" else "ctor"}{if two then " aes-hist-two" else ""} {unwordsSp tags}",
+                 "P aes.hist " ++ (if expect.isEmpty then "-" else unwordsSp (expect.map hexOfBytes))]
+                ++ (if m = expect then [] else ["P model-disagrees-with-spec aes.hist " ++ unwordsSp (m.map hexOfBytes)]))
+  | "crc32.seq" :: seed :: d :: rest => do
+      let s ← seed.toNat?; let d ← bytesOfHex d; let r ← linkPairs? rest
+      if s ≥ 2 ^ 32 then none else
+      let sd := UInt32.ofNat s
+      let rs := Crc.seq32 sd d r
+      let whole := Spec.crc32 (d ++ (r.map (·.2)).flatten) sd
+      let law := r.all (fun x => x.1 = .notPrev)
+      pure (st, [s!"B crc-seq-{min r.length 4}{if law then "-law" else ""}{if r.any (fun x => x.1 = .prev) then " crc-seq-prev" else ""}",
+                 s!"P crc32.seq {unwordsSp (rs.map toString)} whole={whole}"]
+                ++ (if law ∧ rs.getLast? ≠ some whole then ["P model-law-fails crc32.seq"] else []))
+  | "crc16.seq" :: seed :: d :: rest => do
+      let s ← seed.toNat?; let d ← bytesOfHex d; let r ← linkPairs? rest
+      if s ≥ 65536 then none else
+      let sd := UInt16.ofNat s
+      let rs := Crc.seq16 sd d r
+      let whole := Spec.crc16 (d ++ (r.map (·.2)).flatten) sd
+      let law := r.all (fun x => x.1 = .prev)
+      pure (st, [s!"B crc-seq-{min r.length 4}{if law then "-law" else ""}",
+                 s!"P crc16.seq {unwordsSp (rs.map toString)} whole={whole}"]
+                ++ (if law ∧ rs.getLast? ≠ some whole then ["P model-law-fails crc16.seq"] else []))
+  | "si.buf" :: h :: steps => do
+      let buf ← bytesOfHex h
+      if steps.isEmpty ∨ buf.length > 4096 then none else
+      let steps ← steps.mapM siStep?
+      if steps.any (fun x => x.2 > buf.length) then none else
+      let nd := (steps.filter (fun x => x.1.isSome)).length
+      let dumpOffs := (steps.filter (fun x => x.1.isSome)).map (·.2)
+      let reparse := steps.any (fun x => x.1.isNone ∧ dumpOffs.contains x.2)
+      pure (st, [s!"B si-buf-{min nd 4}dumps{if reparse then " si-buf-reparse" else ""}", "P si.buf" ++ siGo buf steps])
+  | "md5.two" :: steps => do
+      if steps.isEmpty then none else
+      let steps ← steps.mapM md5Step2?
+      let (ra, aba) := Md5.runScript Spec.md5Params (Md5.Obj.new Spec.md5Params) (Md5.proj false steps)
+      let (rb, abb) := Md5.runScript Spec.md5Params (Md5.Obj.new Spec.md5Params) (Md5.proj true steps)
+      if aba ∨ abb then none else          -- in-process: a step on a finished object is not driven here (md5.seq does that in a child)
+      let _ := (ra, rb)
+      -- expected digests: RFC 1321 of each object's own updates (independent Spec), in the order the finishes occur
+      let piecesOf (w : Bool) : List UInt8 := ((Md5.proj w steps).filterMap id).flatten
+      let expect := (steps.filter (fun x => x.2.isNone)).map (fun x => (x.1, Spec.md5 (piecesOf x.1)))
+      let (m, _) := Md5.runTwo Md5.gen (Md5.Obj.new Md5.gen) (Md5.Obj.new Md5.gen) steps
+      let show2 (r : List (Bool × List UInt8)) := unwordsSp (r.map (fun x => (if x.1 then "b=" else "a=") ++ hexOfBytes x.2))
+      pure (st, [s!"B md5-two-{min steps.length 9}", "P md5.two " ++ (if expect.isEmpty then "-" else show2 expect)]
+                ++ (if m = expect then [] else ["P model-disagrees-with-spec md5.two " ++ show2 m]))
+  | ["b64.dec2", t1, t2, c] => do
+      let t1 ← bytesOfHex t1; let t2 ← bytesOfHex t2; let cap ← c.toNat?
+      if cap ≥ 2 ^ 24 then none else
+      let old := List.replicate cap (0xA5 : UInt8)
+      match B64.decodeInto old t1 with
+      | .ok (r1, b1) =>
+        match B64.decodeInto b1 t2 with
+        | .ok (r2, b2) =>
+          pure (st, ["B b64-dec2 " ++ b64Tag t2 cap ++ (if t1 = t2 then " b64-dec2-same" else ""),
+                     s!"P b64.dec2 ret={r1} out={hexOfBytes (b1.take r1)} ret={r2} out={hexOfBytes (b2.take r2)}"]
+                    ++ (if r1 > 0 ∧ r2 > 0 then [s!"M b64.dec2 rest={hexOfBytes (b2.drop r2)}"] else []))
+        | .oob w => pure (st, [s!"P b64.dec2 OOB {w}"])
+        | _ => pure (st, ["P b64.dec2 ?"])
+      | .oob w => pure (st, [s!"P b64.dec2 OOB {w}"])
+      | _ => pure (st, ["P b64.dec2 ?"])
+  | ["ser.view", e] => do
+      let s ← st.ser; let e ← endian? e
+      pure ({ st with des := some (Ser.D.new (s.mem.take s.pos) e) }, ["B ser-view", "P des new"])
   | "aes.seq" :: k1 :: k2 :: blks => do
       let k1 ← bytesOfHex k1; let k2 ← bytesOfHex k2
       if ¬ ((k1.length = 16 ∨ k1.isEmpty) ∧ (k2.length = 16 ∨ k2.isEmpty) ∧ ¬ (k1.isEmpty ∧ k2.isEmpty)) ∨ blks.isEmpty then none else
